@@ -1487,6 +1487,7 @@ int32_t tls13WriteNewSessionTicket(ssl_t *ssl, sslBuf_t *out)
             &ticketLen);
     if (rc < 0)
     {
+        psDynBufUninit(&nstBuf);
         goto out_internal_error;
     }
 
@@ -1511,6 +1512,8 @@ int32_t tls13WriteNewSessionTicket(ssl_t *ssl, sslBuf_t *out)
         rc = tls13WriteEarlyData(ssl, &extBuf, ssl->tls13SessionMaxEarlyData);
         if (rc < 0)
         {
+            psDynBufUninit(&extBuf);
+            psDynBufUninit(&nstBuf);
             return rc;
         }
         extData = psDynBufDetachPsSize(&extBuf, &extDataLen);
